@@ -46,9 +46,26 @@ pub mod conc {
                             a.connect(&c3, Et::of(i));
                             c3.connect(&b, Et::of(i));
                             b.connect(&c3, Et::of(i + 1));
-                            let _ = a.disconnect(&Kt::of(3));
-                            let _ = c3.disconnect(&Kt::of(2));
-                            let _ = b.disconnect(&Kt::of(3));   // removes the OLDEST 2->3 edge: the ring keeps one
+                            // the ONLY writer: its own calls are sequential, so each removal must succeed and return a value
+                            // this thread stored (readers alone never change what a mutation returns)
+                            if a.disconnect(&Kt::of(3)).is_err() || c3.disconnect(&Kt::of(2)).is_err() {
+                                panic!("the only writer's disconnect of an edge it has just connected failed");
+                            }
+                            if b.disconnect(&Kt::of(3)).is_err() {   // removes the OLDEST 2->3 edge: the ring keeps one
+                                panic!("the only writer's disconnect failed");
+                            }
+                        }
+                        // isolate (many critical sections, on the node and on every neighbour) against readers only
+                        ("isolate", 0) => { query_all(&a); traverse_all(&b); }
+                        ("isolate", 1) => { query_all(&b); traverse_all(&a); }
+                        ("isolate", _) => {
+                            a.connect(&b, Et::of(i));
+                            b.connect(&a, Et::of(i + 1));
+                            a.connect(&a, Et::of(i + 2));
+                            a.isolate();
+                            if a.is_connected(&Kt::of(2)) || b.is_connected(&Kt::of(1)) {
+                                panic!("the only writer still sees an edge after its own isolate()");
+                            }
                         }
                         // readers: the query under test
                         ("queries", 0) | ("queries", 1) => {
@@ -116,6 +133,15 @@ pub mod conc {
         }
         if verdict == "ok" && panicked.load(Ordering::Relaxed) {
             verdict = "panic: a thread panicked during the free-running run".to_string();
+        }
+        if verdict == "ok" {
+            // at quiescence the mirror / symmetry invariant holds (single-writer scenarios: always; "disconnect" has two
+            // mutating threads on one pair, where half-edges are the known finding, and is not examined)
+            if which != "disconnect" {
+                if let Err(m) = mirror_ok(&[&a, &b, &c3, &d4]) {
+                    verdict = format!("mirror broken at quiescence: {}", m);
+                }
+            }
         }
         if verdict == "ok" {
             // no lock may be left poisoned: every node still answers its queries
